@@ -6,7 +6,8 @@ EXTENDS Integers, Sequences, FiniteSets, TLC, Json
 CONSTANTS Pairs, MaxIdx
 VARIABLE x
 Scenarios == {"get_hit", "get_miss", "put", "find_node", "fn_then_put", "fn_and_put", "put_and_get", "get_get",
-              "get_put_diff", "dead_boot", "closest", "put_put_same", "peers", "get_then_put", "three"}
+              "get_put_diff", "dead_boot", "closest", "put_put_same", "peers", "get_then_put", "three",
+              "putmut_getmut_seq", "putmut_getmut", "put_get_during_store", "putmut_twice_cached"}
 Kinds == {"drop", "dup", "late", "slow", "crash"}
 F == [i : 0..MaxIdx, kind : Kinds]
 Plans == {[scenario |-> s, faults |-> <<>>] : s \in Scenarios}
